@@ -35,6 +35,9 @@ type RootHooks struct {
 	// SyncConfigFrom passes settings as the configuration file gives them (factors, seconds)
 	// through timeservice.go's syncConfig.
 	SyncConfigFrom func(refImpact, peerImpact, cutoffSec, timeoutSec, intervalSec float64) sync.Config
+	// ClassifySources runs the service's createClocks on a list of configured reference clocks
+	// and SCION peers and reports how many sources ended up in either list.
+	ClassifySources func(refs, peers []string, local string) (nref, npeer int)
 	// NewNTPReferenceClockSCION is timeservice.go's SCION reference clock (seven SCIONClients in
 	// interleaved mode with Ntimed filters) with the given Pather; it also returns the clients.
 	NewNTPReferenceClockSCION func(log *slog.Logger, localAddr, remoteAddr udp.UDPAddr, dscp uint8, pather *scion.Pather) (client.ReferenceClock, []*client.SCIONClient)
@@ -98,6 +101,9 @@ func resetProm() {
 	prometheus.DefaultRegisterer = reg
 	prometheus.DefaultGatherer = reg
 }
+
+// QuietLog is quietLog for the hook files of the root package.
+func QuietLog() *slog.Logger { return quietLog() }
 
 func quietLog() *slog.Logger {
 	return slog.New(slog.NewTextHandler(io.Discard, &slog.HandlerOptions{Level: slog.LevelError + 4}))
